@@ -318,33 +318,42 @@ PPL::Polyhedron::relation_with(const Congruence& cg) const {
       && Poly_Con_Relation::is_included()
       && Poly_Con_Relation::is_disjoint();
   }
-  // Build the equality corresponding to the congruence (ignoring the modulus).
+  // The expression of the congruence (ignoring the modulus).
   Linear_Expression expr(cg.expression());
-  const Constraint c(expr == 0);
 
   // The polyhedron is non-empty so that there exists a point.
-  // For an arbitrary generator point, compute the scalar product with
-  // the equality.
+  // For an arbitrary generator point `p/d', compute `sp_point' such that
+  // the value of `expr' on the point is `sp_point/d'.
   PPL_DIRTY_TEMP_COEFFICIENT(sp_point);
+  PPL_DIRTY_TEMP_COEFFICIENT(point_divisor);
+  point_divisor = 1;
   for (Generator_System::const_iterator gs_i = gen_sys.begin(),
          gs_end = gen_sys.end(); gs_i != gs_end; ++gs_i) {
     if (gs_i->is_point()) {
-      Scalar_Products::assign(sp_point, c, *gs_i);
-      expr -= sp_point;
+      Scalar_Products::homogeneous_assign(sp_point, expr, *gs_i);
+      point_divisor = gs_i->divisor();
+      add_mul_assign(sp_point, expr.inhomogeneous_term(), point_divisor);
       break;
     }
   }
 
+  // From now on work with `d * expr', whose value on the point is `sp_point'
+  // and which is a multiple of `d * modulus' exactly on the hyperplanes
+  // satisfying the congruence.
+  expr *= point_divisor;
+  PPL_DIRTY_TEMP_COEFFICIENT(scaled_modulus);
+  scaled_modulus = cg.modulus() * point_divisor;
+
   // Find two hyperplanes that satisfy the congruence and are near to
   // the generating point (so that the point lies on or between these
   // two hyperplanes).
-  // Then use the relations between the polyhedron and the halfspaces
-  // corresponding to the hyperplanes to determine the result.
+  // Then use the relations between the polyhedron and the open halfspaces
+  // delimited by the hyperplanes to determine the result.
 
   // Compute the distance from the point to an hyperplane.
-  const Coefficient& modulus = cg.modulus();
   PPL_DIRTY_TEMP_COEFFICIENT(signed_distance);
-  signed_distance = sp_point % modulus;
+  signed_distance = sp_point % scaled_modulus;
+  expr -= sp_point;
   if (signed_distance == 0) {
     // The point is lying on the hyperplane.
     return relation_with(expr == 0);
@@ -353,35 +362,32 @@ PPL::Polyhedron::relation_with(const Congruence& cg) const {
     // The point is not lying on the hyperplane.
     expr += signed_distance;
   }
-  // Build first halfspace constraint.
+  // Build first (open) halfspace constraint: the polyhedron is disjoint
+  // from the congruence only if it does not even touch the hyperplanes.
   const bool positive = (signed_distance > 0);
-  const Constraint first_halfspace = positive ? (expr >= 0) : (expr <= 0);
+  const Constraint first_halfspace = positive ? (expr > 0) : (expr < 0);
 
   const Poly_Con_Relation first_rels = relation_with(first_halfspace);
-  PPL_ASSERT(!first_rels.implies(Poly_Con_Relation::saturates())
-             && !first_rels.implies(Poly_Con_Relation::is_disjoint()));
-  if (first_rels.implies(Poly_Con_Relation::strictly_intersects())) {
+  PPL_ASSERT(!first_rels.implies(Poly_Con_Relation::is_disjoint()));
+  if (!first_rels.implies(Poly_Con_Relation::is_included())) {
     return Poly_Con_Relation::strictly_intersects();
   }
 
   // Build second halfspace.
   if (positive) {
-    expr -= modulus;
+    expr -= scaled_modulus;
   }
   else {
-    expr += modulus;
+    expr += scaled_modulus;
   }
-  const Constraint second_halfspace = positive ? (expr <= 0) : (expr >= 0);
+  const Constraint second_halfspace = positive ? (expr < 0) : (expr > 0);
 
-  PPL_ASSERT(first_rels == Poly_Con_Relation::is_included());
   const Poly_Con_Relation second_rels = relation_with(second_halfspace);
-  PPL_ASSERT(!second_rels.implies(Poly_Con_Relation::saturates())
-             && !second_rels.implies(Poly_Con_Relation::is_disjoint()));
-  if (second_rels.implies(Poly_Con_Relation::strictly_intersects())) {
+  PPL_ASSERT(!second_rels.implies(Poly_Con_Relation::is_disjoint()));
+  if (!second_rels.implies(Poly_Con_Relation::is_included())) {
     return Poly_Con_Relation::strictly_intersects();
   }
 
-  PPL_ASSERT(second_rels == Poly_Con_Relation::is_included());
   return Poly_Con_Relation::is_disjoint();
 }
 
